@@ -1,8 +1,98 @@
 import PybtexModel.Drv.Json
+import PybtexModel.Drv.C06
+import PybtexModel.Drv.C08
+import PybtexModel.Drv.DbJson
+import PybtexModel.Model.Template
 open Lean
 namespace Pybtex.Drv.C07
+open Pybtex.Tmpl
 
-/-- driver ops of this property: (op name, handler) -/
-def handlers : List (String × (Json → Except String Json)) := []
+def parseFn (s : String) : Except String ApplyFn :=
+  match s with
+  | "none" => pure .none | "dashify" => pure .dashify | "lower" => pure .lower | "capitalize" => pure .capitalize
+  | _ => throw s!"unknown apply_func {s}"
+
+def getTree (j : Json) (k : String) : Except String RT := do C08.tree (← j.getObjVal? k)
+
+/-- parse a serialised template (bounded nesting: I/O glue) -/
+def parseT : Nat → Json → Except String T
+  | 0, _ => throw "template nested too deeply for the driver"
+  | fuel + 1, j => do
+    let t ← (← j.getObjVal? "t").getStr?
+    let kids := fun (k : String) => do (← getArr j k).mapM (parseT fuel)
+    match t with
+    | "lit" => pure (.lit (← getTree j "r"))
+    | "join" => pure (.join (← getTree j "sep") (← getTree j "sep2") (← getTree j "last") (← kids "c"))
+    | "together" => pure (.together (← getBool j "last_tie") (← kids "c"))
+    | "sentence" =>
+      pure (.sentence (← getBool j "capfirst") (← getBool j "capitalize") (← getBool j "add_period") (← getTree j "sep") (← kids "c"))
+    | "field" => pure (.field (← getStr j "name") (← parseFn (← (← j.getObjVal? "fn").getStr?)) (← getBool j "raw"))
+    | "names" => pure (.names (← getStr j "role") (← getTree j "sep") (← getTree j "sep2") (← getTree j "last"))
+    | "optional" => pure (.optional (← kids "c"))
+    | "first_of" => pure (.firstOf (← kids "c"))
+    | "tag" => pure (.tag (← getStr j "name") (← kids "c"))
+    | "href" => pure (.href (← parseT fuel (← j.getObjVal? "url")) (← getBool j "external") (← kids "c"))
+    | "name_part" => pure (.namePart (← getTree j "before") (← getBool j "tie") (← getBool j "abbr") (← kids "c"))
+    | _ => throw s!"unknown template node {t}"
+
+def toPEntry (ke : Str × Bib.Entry) : PEntry :=
+  { key := ke.1, type := ke.2.type, fields := CIDict.ofPairs ke.2.fields, persons := CIDict.ofPairs ke.2.persons }
+
+def bibErrJ : BibErr → Json
+  | .missingField f k => arr [Json.str "FieldIsMissing", strToJson f, strToJson k]
+  | .unbalanced k => arr [Json.str "PybtexSyntaxError", strToJson k]
+  | .noTemplate k => arr [Json.str "NO-TEMPLATE", strToJson k]
+  | .labelIndex => arr [Json.str "INTERNAL", Json.str "label"]
+  | .outOfFuel => arr [Json.str "OUT-OF-FUEL"]
+
+def parseSorting (s : String) : Except String Sorting :=
+  match s with | "none" => pure .none | "author_year_title" => pure .authorYearTitle | _ => throw "sorting"
+def parseLabels (s : String) : Except String Labels :=
+  match s with | "number" => pure .number | "alpha" => pure .alpha | _ => throw "labels"
+
+/-- `style.format_bibliography(db, citations)` -/
+def pystyle (j : Json) : Except String Json := do
+  let es ← (← getArr j "entries").mapM C06.parseEntry
+  let items ← (← getArr j "items").mapM fun it => do
+    let key ← getStr it "key"
+    let tmpl ← parseT 64 (← it.getObjVal? "template")
+    let pts ← (← getArr it "person_templates").mapM fun r => do
+      let a ← r.getArr?
+      let ts ← (← (a[1]!).getArr?).toList.mapM (parseT 64)
+      pure ((← jsonToStr a[0]!), ts)
+    pure (key, ({ template := tmpl, personTemplates := pts } : Item))
+  let cites ← getStrList j "citations"
+  let mc ← getInt j "min_crossrefs"
+  let sorting ← parseSorting (← (← j.getObjVal? "sorting").getStr?)
+  let labels ← parseLabels (← (← j.getObjVal? "labels").getStr?)
+  let lookup := fun (k : Str) => (items.find? fun p => p.1 = k).map (·.2)
+  let r := formatBibliography (es.map toPEntry) lookup cites mc sorting labels
+  let reports := DbJson.reportsJ r.1
+  match r.2 with
+  | .error e => pure (obj [("out", obj [("error", bibErrJ e), ("reports", reports)])])
+  | .ok fs =>
+    pure (obj [("out", obj [("reports", reports),
+      ("entries", arr (fs.map fun f => arr [strToJson f.key, strToJson f.label, C08.treeJ f.text]))])])
+
+/-- one template on one entry (evaluator alone) -/
+def tmpleval (j : Json) : Except String Json := do
+  let es ← (← getArr j "entries").mapM C06.parseEntry
+  let key ← getStr j "key"
+  let tmpl ← parseT 64 (← j.getObjVal? "template")
+  let pts ← (← getArr j "person_templates").mapM fun r => do
+    let a ← r.getArr?
+    let ts ← (← (a[1]!).getArr?).toList.mapM (parseT 64)
+    pure ((← jsonToStr a[0]!), ts)
+  let pes := es.map toPEntry
+  match pes.find? fun e => e.key = key with
+  | none => throw "no such entry"
+  | some e =>
+    match eval evalFuel { entry := e.toEntry, db := some (mkDb pes), personTemplates := pts } tmpl with
+    | .error (.missing f) => pure (obj [("out", obj [("error", arr [Json.str "FieldIsMissing", strToJson f, strToJson key])])])
+    | .error .unbalanced => pure (obj [("out", obj [("error", arr [Json.str "PybtexSyntaxError", strToJson key])])])
+    | .error .outOfFuel => pure (obj [("out", obj [("error", arr [Json.str "OUT-OF-FUEL"])])])
+    | .ok t => pure (obj [("out", obj [("text", C08.treeJ t)])])
+
+def handlers : List (String × (Json → Except String Json)) := [("pystyle", pystyle), ("tmpleval", tmpleval)]
 
 end Pybtex.Drv.C07
